@@ -246,7 +246,21 @@ fn child() {
 
 /// returns true when the history wrote outside a buffer (the heap can no longer be trusted)
 fn run_case(idx: usize, cap: usize, ops: &[(usize, u64)], o: &mut impl Write) -> bool {
-    let arena = Arena::with_capacity(cap);
+    // a zero-capacity arena is built through each of its three constructors in turn
+    let arena = match (cap, idx % 3) {
+        (0, 1) => {
+            writeln!(o, "H constructor:new()").unwrap();
+            Arena::new()
+        }
+        (0, 2) => {
+            writeln!(o, "H constructor:default()").unwrap();
+            Arena::default()
+        }
+        _ => {
+            writeln!(o, "H constructor:with_capacity").unwrap();
+            Arena::with_capacity(cap)
+        }
+    };
     let mut held: Held = vec![];
     let (bufs0, off0) = arena.verif_layout();
     let descr = |upto: usize| -> String {
